@@ -90,6 +90,66 @@ def token_roundtrip_worker(args):
     return out
 
 
+def token_value_worker(args):
+    """L2 on token VALUES: a HandRangeToken built directly (concrete kind and ranks, symbolic weight in [0,1] other than -0.0) is
+    formatted by the real Display MIR and parsed back by the real FromStr MIR: same kind, bit-identical weight"""
+    src, mir, shapes = args
+    import z3, mirx, time as _t
+    from mlib import (load_lib, fn, run_fn, is_panic, sat_model, decide, Str, Agg, Enum, Flt, Ref, Cell, PyObj, ENUMS, F32, RANK_CH, SUIT_CH, mk_card, f32_bits)
+    import itermodel
+    t0 = _t.time()
+    out = dict(bad=[], error=None, checked=0, paths=0)
+    try:
+        M = load_lib(src, 'dev', mir)
+        f_fmt = fn(M, '<HandRangeToken as std::fmt::Display>::fmt')
+        f_parse = fn(M, '<HandRangeToken as FromStr>::from_str')
+        f_cpnew = fn(M, 'CardPair::new')
+        tf = [f for f, _ in itermodel.struct_fields(src, 'src/hand_range/hand_range_token.rs', 'HandRangeToken')]
+        w = z3.FP('w', F32)
+        base = [z3.fpGEQ(w, z3.FPVal(0.0, F32)), z3.fpLEQ(w, z3.FPVal(1.0, F32)), z3.Not(z3.And(z3.fpIsZero(w), z3.fpIsNegative(w)))]
+        R = lambda c: Enum('Rank', ENUMS['Rank'][RANK_CH.index(c)], [])
+
+        def rp(body):
+            if body[0] == body[1] and len(body) == 2:
+                return Enum('RankPair', 'Pocket', [R(body[0])])
+            return Enum('RankPair', 'Suited' if body[2] == 's' else 'Ofsuit', [R(body[0]), R(body[1])])
+        for sh in shapes:
+            if len(sh) == 4 and sh[1] in SUIT_CH:
+                cp = run_fn(M, f_cpnew, [mk_card(RANK_CH.index(sh[0]), SUIT_CH.index(sh[1])), mk_card(RANK_CH.index(sh[2]), SUIT_CH.index(sh[3]))])[0].result
+                kind = Enum('HandRangeTokenKind', 'SingleCardPair', [cp])
+            elif sh.endswith('+'):
+                kind = Enum('HandRangeTokenKind', 'BottomClosedRankPairRange', [rp(sh[:-1])])
+            elif '-' in sh:
+                l, r_ = sh.split('-')
+                kind = Enum('HandRangeTokenKind', 'DoubleClosedRankPairRange', [rp(l), R(r_[1] if len(r_) == 3 else r_[0])])
+            else:
+                kind = Enum('HandRangeTokenKind', 'SingleRankPair', [rp(sh)])
+            tok = Agg('HandRangeToken', [kind if f == 'kind' else Flt(w) for f in tf])
+            fcell = Cell('fmt', PyObj('fmt', buf=[]))
+            for q in run_fn(M, f_fmt, [Ref(Cell('tok', mirx.cp(tok)), []), Ref(fcell, [])], base):
+                out['paths'] += 1
+                if is_panic(q):
+                    out['bad'].append(dict(ob='token-value-roundtrip', key='token:display-panics', text=sh, printed='')); continue
+                txt = rangefmt.text_of(q.fmtbuf)
+                for r2 in run_fn(M, f_parse, [Str(list(q.fmtbuf))], q.pc):
+                    if is_panic(r2) or r2.result.var != 'Ok':
+                        c0, m0 = sat_model(r2.pc)
+                        out['bad'].append(dict(ob='token-value-roundtrip', key='token:text-does-not-parse', text=sh, printed=txt, wbits='%08x' % f32_bits(m0, w) if m0 is not None else ''))
+                        continue
+                    t2 = r2.result.f[0]
+                    same = repr(t2.f[tf.index('kind')]) == repr(kind)
+                    c, m, dt = decide(r2.pc, t2.f[tf.index('probability')].v == w, 120) if same else ('sat', sat_model(r2.pc)[1], 0)
+                    if c != 'unsat':
+                        out['bad'].append(dict(ob='token-value-roundtrip', key='token:changed', text=sh, printed=txt, wbits='%08x' % f32_bits(m, w) if m is not None else ''))
+                    out['checked'] += 1
+        out['queries'] = M.nq
+    except Exception as e:
+        import traceback
+        out['error'] = ('unsupported: ' + str(e)) if isinstance(e, mirx.Unsupported) else ('internal error in the check machinery: ' + repr(e) + ' | ' + traceback.format_exc()[-700:])
+    out['wall'] = round(_t.time() - t0, 1)
+    return out
+
+
 def native_roundtrip_bad(bins, spec):
     rc, kv, raw = replay(bins, 'debug', ['roundtrip', spec])
     if 'panic' in kv:
@@ -118,10 +178,16 @@ def run(PID, mode, a, seed, t0):
         import tokens
         tl = list(range(2, (7 if a.tier == 'quick' else 10) + 1)) if 'c06' in mode else []
         tjobs = [(src, mir, L, k, n) for L, k, n in tokens.split_jobs(tl)]
+        allshapes = tokens.all_wellformed_shapes()
+        rnd_ = random.Random(seed)
+        pick = allshapes if a.tier == 'thorough' else ([x for x in allshapes if len(x) != 4 or x[1] not in 'shdc'][::9] + rnd_.sample([x for x in allshapes if len(x) == 4 and x[1] in 'shdc'], 40))
+        vjobs = [(src, mir, pick[k::NCPU]) for k in range(NCPU)] if 'c06' in mode else []
         with Pool(NCPU) as pool:
             r1 = pool.map_async(rangefmt.worker, jobs, chunksize=1)
             r2 = pool.map_async(token_roundtrip_worker, tjobs, chunksize=1)
-            results = r1.get(); tres = r2.get()
+            r3 = pool.map_async(token_value_worker, vjobs, chunksize=1)
+            results = r1.get(); tres = r2.get(); vres = r3.get()
+        tres = tres + [dict(v, L='values') for v in vres]
         errs = [r for r in results if r['error']] + [r for r in tres if r['error']]
         stopped = [r for r in results if r.get('stopped_early')]
         for e in errs[:3]:
@@ -141,6 +207,13 @@ def run(PID, mode, a, seed, t0):
                 if ob not in ('roundtrip', 'format-no-panic', 'parse-back-no-panic') and not nb:
                     nb = native_canonical_bad(bins, b, ob)
                 cex = dict(range=b['range'], cfg=b['cfg'], detail=b.get('detail'), native=nb, reproduced=bool(nb))
+            elif b.get('wbits'):
+                # a token value with that weight: natively, the range holding exactly its combos with that weight must survive the round trip
+                from mlib import RANK_CH, SUIT_CH
+                den = tokens.denotation(b['text']) or set()
+                spec = 'c:' + ','.join(''.join(RANK_CH[r_] + SUIT_CH[s_] for r_, s_ in sorted(c_)) + '=' + b['wbits'] for c_ in sorted(den, key=lambda c_: sorted(c_)))
+                nb, raw = native_roundtrip_bad(bins, spec)
+                cex = dict(range=spec, token=b['text'], printed=b.get('printed'), native=nb, reproduced=bool(nb))
             elif 'hex' in b:
                 rc, kv, raw = replay(bins, 'debug', ['parse', 'token', b['hex']])
                 rc2, kv2, raw2 = replay(bins, 'debug', ['parse', 'token', kv.get('text', '').encode().hex()]) if kv.get('text') else (0, {}, '')
@@ -149,7 +222,7 @@ def run(PID, mode, a, seed, t0):
             else:
                 cex = dict(detail=b.get('detail'), reproduced=False)
             obs.append(Obligation(f'{ob}[{key}]', 'violated', f"{len(lst)} paths, e.g. {b.get('detail') or b.get('text')} ({b['cfg']}); native: {cex.get('native') or 'not reproduced'}", cex=cex, key=key))
-        names = (['roundtrip', 'format-no-panic', 'parse-back-no-panic', 'token-roundtrip'] if 'c06' in mode else []) + \
+        names = (['roundtrip', 'format-no-panic', 'parse-back-no-panic', 'token-roundtrip', 'token-value-roundtrip'] if 'c06' in mode else []) + \
                 (['order', 'complete<=>rank-pair-token', 'token-kind', 'maximal-runs', 'history-independence'] if 'c17' in mode else [])
         if stopped and not any(o.status == 'violated' for o in obs):
             obs.append(Obligation('exploration', 'inconclusive', f'{len(stopped)} workers stopped early on a counterexample that was then not confirmed natively'))
@@ -157,7 +230,7 @@ def run(PID, mode, a, seed, t0):
             for nme in names:
                 if not any(k[0] == nme and k[1] != 'weight=neg-zero' for k in bykey):
                     obs.append(Obligation(nme, 'holds', f'on all {sum(r["fmt_paths"] for r in results)} format paths / {sum(r["parse_paths"] for r in results)} parse-back paths of {len(cfgs)} window configurations'
-                                          + (f'; {sum(r["checked"] for r in tres)} token round trips' if nme == 'token-roundtrip' else ''), queries=q // max(len(names), 1), solver_s=ss / max(len(names), 1)))
+                                          + (f'; {sum(r["checked"] for r in tres if r.get("L") != "values")} token round trips from parsed strings' if nme == 'token-roundtrip' else '') + (f'; {sum(r["checked"] for r in tres if r.get("L") == "values")} round trips of {len(pick)} token values with a symbolic weight' if nme == 'token-value-roundtrip' else ''), queries=q // max(len(names), 1), solver_s=ss / max(len(names), 1)))
         paths = sum(r['fmt_paths'] + r['parse_paths'] for r in results) + sum(r.get('paths', 0) for r in tres)
         cov = dict(states=max(paths, 1), transitions=max(q, 1), traces_validated_against_impl=sum(1 for o in obs if o.cex and o.cex.get('reproduced')),
                    samples=[dict(cfg=r['cfg'], fmt_paths=r['fmt_paths'], parse_paths=r['parse_paths'], wall=r['wall'], texts=r['texts'][:8]) for r in results[:8]],
